@@ -433,23 +433,23 @@ func (g *vGen) hostilePrefix(steps int, hostile bool) {
 		switch {
 		case x < 14:
 			s.exec(&vOp{Op: "tick", N: c.At, Peer: c.Peer})
-		case x < 60 && len(s.pending) > 0:
+		case x < 56 && len(s.pending) > 0:
 			// deliver in arbitrary order
 			k := r.Intn(len(s.pending))
 			if r.Intn(3) == 0 {
 				k = 0
 			}
 			s.exec(&vOp{Op: "deliver", M: s.pending[k]})
-		case x < 66 && len(s.pending) > 0:
+		case x < 62 && len(s.pending) > 0:
 			// loss
 			k := r.Intn(len(s.pending))
 			s.pending = append(s.pending[:k:k], s.pending[k+1:]...)
-		case x < 74 && len(s.sent) > 0:
+		case x < 70 && len(s.sent) > 0:
 			// duplicate / stale: any message ever sent
 			s.exec(&vOp{Op: "deliver", M: r.Intn(len(s.sent))})
-		case x < 88 && hostile:
+		case x < 90 && hostile:
 			s.exec(&vOp{Op: "inject", From: c.Peer, To: c.At, Msg: g.forge(c.Peer, c.At)})
-		case x < 92:
+		case x < 93:
 			s.exec(&vOp{Op: "advance", N: c.At, Dt: 1 + r.Intn(3)})
 			if r.Intn(2) == 0 {
 				s.exec(&vOp{Op: "evict", N: c.At})
@@ -495,7 +495,7 @@ func (g *vGen) runScenario(idx int, dir string) vVerdict {
 	defer s.endScenario()
 	startSets, startDiff := s.startSets()
 	hostile := idx%4 != 3
-	steps := []int{0, 15, 40, 80}[r.Intn(4)]
+	steps := []int{0, 20, 60, 120}[r.Intn(4)]
 	if hostile {
 		feats = append(feats, "hostile-prefix")
 	}
@@ -585,6 +585,11 @@ func vReplay(t *testing.T, path string, outDir string, build func(s *vSim, kind 
 			s = vNewSim(t, out, op.Seed)
 			build(s, op.Kind, op.Tier == "thorough")
 			s.emitUniverse(op.Kind, op.Seed, op.Tier)
+		case "authn":
+			if s == nil {
+				s = vNewSim(t, out, 1)
+			}
+			s.authnCases(op.Case)
 		case "tx", "payload", "cipher":
 		case "scenario":
 			if s == nil {
@@ -636,9 +641,17 @@ func TestVerifC07(t *testing.T) {
 	s.emitUniverse("c07", seed, tier)
 	g := &vGen{s: s, ly: ly, rnd: s.rnd}
 	n := vEnvInt("VERIF_SCENARIOS", 24)
+	failed := 0
 	for i := 0; i < n; i++ {
 		v := g.runScenario(i, outDir)
 		fmt.Fprintln(out.oracle, vJSON(v))
+		if !v.Converged || len(v.Shrunk) > 0 || len(v.InvalidIn) > 0 {
+			failed++
+			if failed >= 2 {
+				// two failing scenarios are enough for a report; non-converging runs are slow
+				break
+			}
+		}
 	}
 	fmt.Fprintln(out.oracle, vJSON(map[string]interface{}{"kind": "dc", "histogram": s.dc}))
 	for _, l := range s.leaks {
